@@ -299,6 +299,17 @@ func enumC03(tier string, e *engine.Emitter) {
 						}
 					}
 				}
+				if h >= 2 {
+					// hand-edited order: the hunks reversed, and the first two swapped; the reference applies
+					// them one after the other in the order given, like the format says
+					for _, ord := range []string{"rev", "swap"} {
+						for k, ct := range append([]string{at, bt}, targets...) {
+							if k < 12 {
+								e.Do(engine.Case{Kind: "c03o", Leg: l.Name + "/reordered", A: at, B: bt, C: ct, X: ord})
+							}
+						}
+					}
+				}
 				for _, m := range masksFor(h) {
 					ms := strconv.FormatUint(m, 10)
 					e.Do(engine.Case{Kind: "c03", Leg: l.Name, A: at, B: bt, C: at, X: ms})
@@ -341,6 +352,16 @@ func runC03(c *engine.Case) engine.Result {
 		var sub jd.Diff
 		if c.Kind == "c03w" {
 			sub = impl.Diff(ref.DecodeHunks(c.X))
+		} else if c.Kind == "c03o" {
+			d := impl.Read(c.A).Diff(impl.Read(c.B))
+			sub = append(jd.Diff{}, d...)
+			if c.X == "rev" {
+				for i, j := 0, len(sub)-1; i < j; i, j = i+1, j-1 {
+					sub[i], sub[j] = sub[j], sub[i]
+				}
+			} else if len(sub) >= 2 {
+				sub[0], sub[1] = sub[1], sub[0]
+			}
 		} else {
 			sub = subDiff(impl.Read(c.A).Diff(impl.Read(c.B)), mask)
 		}
@@ -417,6 +438,9 @@ func runC03(c *engine.Case) engine.Result {
 	}
 	res.Bucket = bucket
 	res.Nontrivial = c.C != c.A
+	if c.Kind == "c03o" {
+		res.Bucket = "reordered/" + bucket
+	}
 	if c.Kind == "c03w" {
 		res.Bucket = "wide/" + bucket
 		res.Nontrivial = true
